@@ -504,8 +504,8 @@ MUTANTS = [
          old="        # g_dot_q_num = approx_fprime(\n        #     q, lambda q: self.g_dot(t, q, u), method=\"cs\", eps=1e-12\n        # )\n        # diff = g_dot_q - g_dot_q_num\n        # error = np.linalg.norm(diff)\n        # print(f\"error g_dot_q: {error}\")\n        # return g_dot_q_num\n\n    def g_dot_u(self, t, q):\n        return self.W_g(t, q).T",
          new="        # g_dot_q_num = approx_fprime(\n        #     q, lambda q: self.g_dot(t, q, u), method=\"cs\", eps=1e-12\n        # )\n        # diff = g_dot_q - g_dot_q_num\n        # error = np.linalg.norm(diff)\n        # print(f\"error g_dot_q: {error}\")\n        # return g_dot_q_num\n\n    def g_dot_u(self, t, q):\n        return self.W_g(t, q)", expect="C05.R2"),
     dict(id="c05-m5", what="subsystem-2 joint frame derived from the body-1 orientation", file=PB,
-         old="            B2_r_P2J0 = A_IB20.T @ (self.r_OJ0 - r_OP20)\n            A_K2J0 = A_IB20.T @ self.A_IJ0\n        else:\n            B2_r_P2J0 = np.zeros(3)\n            A_K2J0 = None  # unused\n            assert self.nla_g_rot == 0  # Spherical case\n\n        # the body-fixed",
-         new="            B2_r_P2J0 = A_IB20.T @ (self.r_OJ0 - r_OP20)\n            A_K2J0 = A_IB10.T @ self.A_IJ0\n        else:\n            B2_r_P2J0 = np.zeros(3)\n            A_K2J0 = None  # unused\n            assert self.nla_g_rot == 0  # Spherical case\n\n        # the body-fixed", expect="C05.R3"),
+         old="            B2_r_P2J0 = np.linalg.solve(A_IB20, self.r_OJ0 - r_OP20)\n            A_K2J0 = np.linalg.solve(A_IB20, self.A_IJ0)\n        else:\n            B2_r_P2J0 = np.zeros(3)\n            A_K2J0 = None  # unused\n            assert self.nla_g_rot == 0  # Spherical case\n\n        # the body-fixed",
+         new="            B2_r_P2J0 = np.linalg.solve(A_IB20, self.r_OJ0 - r_OP20)\n            A_K2J0 = np.linalg.solve(A_IB10, self.A_IJ0)\n        else:\n            B2_r_P2J0 = np.zeros(3)\n            A_K2J0 = None  # unused\n            assert self.nla_g_rot == 0  # Spherical case\n\n        # the body-fixed", expect="C05.R3"),
     dict(id="c05-m6", what="glue passes B_r_CP as keyword that PointMass lacks? (renamed keyword offset=)", file=PB,
          old="    object.J_J1 = lambda t, q: object.subsystem1.J_P(t, q[:nq1], object.xi1, B1_r_P1B0)",
          new="    object.J_J1 = lambda t, q: object.subsystem1.J_P(t, q[:nq1], object.xi1, offset=B1_r_P1B0)", expect=["C05.R4", "C05.R3"]),
@@ -587,7 +587,7 @@ MUTANTS += [
     dict(id="c05-r15-coriolis", what="projected joints: g_ddot rewritten as e . a_rel with the Coriolis factor 2 dropped", file=BASE,
          old=_ROWS, new='            a_rel = (\n                a_J1J2\n                - cross3(Psi1, r_J1J2)\n                + cross3(Omega1, cross3(Omega1, r_J1J2))\n                - cross3(Omega1, v_J1J2)\n            )\n            for i, ax in enumerate(self.constrained_axes_displacement):\n                g_ddot[i] = A_IJ1[:, ax] @ a_rel\n', expect="C05.R15"),
     dict(id="c05-r15-rot", what="projected joints: rotational g_ddot row uses Omega1 for the rate of the body-2 axis", file=BASE,
-         old="cross3(cross3(Omega1, e_a), e_b) + cross3(e_a, cross3(Omega2, e_b))", new="cross3(cross3(Omega1, e_a), e_b) + cross3(e_a, cross3(Omega1, e_b))", expect="C05.R15"),
+         old="cross3(cross3(Omega1, e_a), e_b) + cross3(e_a, cross3(Omega2, e_b))", new="cross3(cross3(Omega1, e_a), e_b) + cross3(e_a, cross3(Omega1, e_b))", every=True, expect="C05.R15"),
 ]
 NEUTRAL += [
     dict(id="c05-n-r15", canary=True, what="projected joints: g_ddot rewritten as e . a_rel with the correct relative acceleration (vector identities only)", file=BASE,
